@@ -179,7 +179,7 @@ func runLeanLifting() extraResult {
 	defer cancel()
 	out, err := exec.CommandContext(ctx, "lean", file).CombinedOutput()
 	text := string(out)
-	if err != nil || strings.Contains(text, "error") || strings.Contains(text, "sorryAx") || !strings.Contains(text, "'lifting'") {
+	if err != nil || strings.Contains(text, "error") || strings.Contains(text, "sorryAx") || !strings.Contains(text, "'lifting'") || !strings.Contains(text, "'lifting_inplace'") {
 		r.Failures = append(r.Failures, extraFailure{Name: "lemma.lifting#lean", Reason: "the Lean proof of the lifting lemma is not accepted", Detail: firstLines(text, 20)})
 		return r
 	}
